@@ -144,6 +144,10 @@ def run_program(prog, preempt, tape, problems):
     con = Console(file=f, record=prog.get("record", False), **kw)
     twin = Console(file=io.StringIO(), **kw)
     s = Sched(dict((int(a), int(b)) for a, b in preempt), files=traced_files() | (deep_files() if deep else set()), tape=tape)
+    if prog.get("opcodes"):
+        import rich.live_render
+
+        s.opcode_files = {rich.live_render.__file__}
     sched_ref[0] = s
     if isinstance(prog.get("_kinds"), list):
         s.kinds = prog["_kinds"]
@@ -447,6 +451,12 @@ RESTART_PROGRAMS = [
     {"display": "progress", "transient": True, "threads": [[["stop"]], [["start"], ["advance", 1], ["refresh"]]]},
     {"display": "live", "transient": True, "auto": True, "frame0": ["fa", "fb"], "threads": [[["stop"], ["start"]], [["print", 1, 1], ["refresh"]]]},
 ]
+OPCODE_PROGRAMS = [
+    # the frame renderable (live_render.py) is preempted between any two byte-code instructions: several reads of shared state inside one source line can be torn
+    {"display": "progress", "opcodes": True, "threads": [[["print", 1, 1]], [["stop"]]]},
+    {"display": "progress", "opcodes": True, "transient": True, "threads": [[["log", 2]], [["advance", 1], ["stop"]]]},
+    {"display": "live", "opcodes": True, "frame0": ["fa", "fb"], "threads": [[["print", 1, 1]], [["update", ["x"], True], ["stop"]]]},
+]
 AUTO_PROGRAMS = [
     {"display": "progress", "auto": True, "transient": True, "threads": [[["print", 1, 1]], [["advance", 2], ["stop"]]]},
     {"display": "live", "auto": True, "frame0": ["a", "b"], "threads": [[["print", 2, 1], ["update", ["x"], False]], [["stop"]]]},
@@ -634,4 +644,5 @@ PARTS = [Exhaustive("plain-exhaustive", PLAIN_PROGRAMS, "programs without a disp
          Exhaustive("big-exhaustive", BIG_PROGRAMS, "programs in which one print yields more than 2048 segments"),
          Exhaustive("redirect-exhaustive", REDIRECT_PROGRAMS, "programs in which threads write lines to sys.stdout while a display redirects it to the console"),
          Exhaustive("shared-state-exhaustive", DEEP_PROGRAMS, "programs printing (coloured) text with the library's process-wide caches emptied or at capacity, preempted also inside cells.py, _lru_cache.py, palette.py and color.py"),
+         Exhaustive("opcode-exhaustive", OPCODE_PROGRAMS, "programs with a display whose frame renderable (live_render.py) is preempted at every byte-code instruction, not only at lines"),
          Generated()]
